@@ -27,7 +27,15 @@ Prio(g, e) == Idx(g.list, e)
 Avail(g) == {e \in SeqSet(g.list) : StOf(g, e).s = "A"}
 TopA(g) == CHOOSE e \in Avail(g) : \A f \in Avail(g) : Prio(g, e) <= Prio(g, f)
 
-MEGhostNext(g, ev) ==
+\* what Current() must be after an operation when nothing is delayed (statement of C13, third sentence)
+Expected(g, g2) ==
+  LET c0 == g.cur
+      inl == In(g2, c0)
+  IN IF inl /\ Eff(g2, c0) = "R" /\ ~\E a \in Avail(g2) : Prio(g2, a) < Prio(g2, c0) THEN c0
+     ELSE IF Avail(g2) # {} THEN TopA(g2)
+     ELSE IF inl THEN c0 ELSE g2.list[1]
+
+MEGhostNext0(g, ev) ==
   LET g0 == [g EXCEPT !.now = ev.now] IN
   IF ev.op = "new"
   THEN IF ev.res # "OK" THEN [g0 EXCEPT !.ok = FALSE]
@@ -49,18 +57,18 @@ MEGhostNext(g, ev) ==
             IN [g0 EXCEPT !.st[i] = new, !.cur = ev.cur]
   ELSE [g0 EXCEPT !.cur = ev.cur]
 
+\* An operation of a concurrent section whose own effect on Current() could not be observed is recorded with cur = "?"
+\* (tools/conc_me.py, linearizations): the ghost then assumes what the statement requires of it (no switching delay, no
+\* timer callback pending: Current() is exactly Expected), so that the operations after it are judged against a
+\* behaviour the statement allows; no clause is evaluated on such an event.
+MEGhostNext(g, ev) ==
+  LET g1 == MEGhostNext0(g, ev) IN
+  IF ev.cur = "?" /\ g1.ok /\ g.ok /\ g1.list # <<>> THEN [g1 EXCEPT !.cur = Expected(g, g1)] ELSE g1
+
 ----------------------------------------------------------------------------
 Cl(id, ante, cons) == [id |-> id, on |-> ante, ok |-> (ante => cons)]
 
-Live(ev) == ev.res \notin {"SKIPPED", "PANIC", "HANG"}
-
-\* what Current() must be after an operation when nothing is delayed (statement of C13, third sentence)
-Expected(g, g2) ==
-  LET c0 == g.cur
-      inl == In(g2, c0)
-  IN IF inl /\ Eff(g2, c0) = "R" /\ ~\E a \in Avail(g2) : Prio(g2, a) < Prio(g2, c0) THEN c0
-     ELSE IF Avail(g2) # {} THEN TopA(g2)
-     ELSE IF inl THEN c0 ELSE g2.list[1]
+Live(ev) == ev.res \notin {"SKIPPED", "PANIC", "HANG"} /\ ev.cur # "?"
 
 MEClauses(g, ev, g2) ==
   LET c0 == g.cur
